@@ -91,16 +91,82 @@ _sl.ensures.append(_Clause("closing-connection-is-closed-only-after-its-output-i
 _sl.ensures.append(_Clause("clean-close-only-after-the-dpa",
     "implies(old(wconn(self, wsock)).g_close_calls == old(wconn(self, wsock).g_close_calls) + 1 and "
     "old(wconn(self, wsock)).g_close_reason == %d, old(wconn(self, wsock).state) == %d)" % (R_CLEAN, CLOSING)))
-if "C18" not in _sl.props:
-    _sl.props.append("C18")
+_sl.ensures.append(_Clause("a-closing-connection-whose-output-is-flushed-is-released",
+    "implies(old(wsock.fd in self.socket_peers) and old(wconn(self, wsock).state) == %d and "
+    "len(old(wconn(self, wsock))._write_buffer) == 0, "
+    "old(wconn(self, wsock)).g_close_calls == old(wconn(self, wsock).g_close_calls) + 1 and "
+    "old(wconn(self, wsock)).g_close_reason == %d and in_no_table(self, old(wconn(self, wsock))))" % (CLOSING, R_CLEAN)))
+for _p in ("C18", "C06"):
+    if _p not in _sl.props:
+        _sl.props.append(_p)
+# the interrupt-pipe case: a connection that asks for attention while CLOSING is released only once its output is flushed
+_il = R.contracts["Node._handle_connections@for:rsock#interrupt"]
+_il.ensures.append(_Clause("a-closing-connection-with-pending-output-is-not-released-yet",
+    "implies(not is_none(c) and old(some(c).state) == %d and old(len(some(c)._write_buffer)) > 0, "
+    "some(c).g_close_calls == old(some(c).g_close_calls))" % CLOSING))
+_il.ensures.append(_Clause("a-closing-connection-without-pending-output-is-released",
+    "implies(not is_none(c) and old(some(c).state) == %d and old(len(some(c)._write_buffer)) == 0, "
+    "some(c).g_close_calls == old(some(c).g_close_calls) + 1 and some(c).g_close_reason == %d and "
+    "in_no_table(self, some(c)))" % (CLOSING, R_CLEAN)))
 
 
-def _monotonic(ex, st, args, kwargs, k, where):
-    """time.monotonic(): a clock unrelated to time.time() (an arbitrary real)"""
-    from pyvc.values import VFloat
-    from pyvc.smt import REAL
-    return k(st, VFloat(ex.arbitrary(REAL, "monotonic")))
 
 
-from pyvc import models as _m3
-_m3.EXT["time.monotonic"] = _monotonic
+# ---- the stop branch at the top of the I/O loop: `if _thread.is_stopped:` (slice, extracted mechanically) ----------------
+_STOP_MODS = ["*PeerConnection.state", "*StoppableThread.stopped", "*Socket.closed", "*Peer.connection", "*Peer.last_connect",
+              "*Peer.last_disconnect", "*Peer.disconnect_reason", "dict:self.connections", "dict:self.peer_sockets",
+              "dict:self.socket_peers", "dict:self._half_ready_connections", "dict:self._peer_waiting_answer", "*Event.flag",
+              "*list:Peer"]
+_STOP_GHOST = ["*PeerConnection.g_close_calls", "*PeerConnection.g_close_reason", "*PeerConnection.g_attn"]
+R.contract("Node._handle_connections@if:_thread.is_stopped", params={"self": "Node", "_thread": "StoppableThread"},
+           ghost={"kc2": "str"},
+           ensures=[("every-registered-connection-is-closed-and-released",
+                     "implies(old(kc2 in self.connections), old(self.connections[kc2]).state == %d and "
+                     "old(self.connections[kc2]).g_close_calls > old(self.connections[kc2].g_close_calls) and "
+                     "not (kc2 in self.connections))" % CLOSED)],
+           raises=[],
+           modifies=_STOP_MODS, ghost_modifies=_STOP_GHOST, props=["C18", "C14"],
+           note="the shutdown step of the I/O thread: every connection registered when the stop flag is seen goes through "
+                "close_connection_socket and close(); nothing escapes - in particular the table is not iterated while it is "
+                "being emptied (iteration over a live dictionary view whose key set changes raises RuntimeError)")
+R.loop("Node._handle_connections@if:_thread.is_stopped", 0,
+       invariants=[("closed-so-far", "implies(kc2 in done and old(kc2 in self.connections), old(self.connections[kc2]).state == %d)" % CLOSED),
+                   ("counted-so-far", "implies(kc2 in done and old(kc2 in self.connections), "
+                                      "old(self.connections[kc2]).g_close_calls > old(self.connections[kc2].g_close_calls))"),
+                   ("monotone", "implies(old(kc2 in self.connections), "
+                                "old(self.connections[kc2]).g_close_calls >= old(self.connections[kc2].g_close_calls))"),
+                   ("released-so-far", "implies(kc2 in done, not (kc2 in self.connections))"),
+                   ("nothing-is-added", "implies(kc2 in self.connections, old(kc2 in self.connections) and "
+                                        "self.connections[kc2] == old(self.connections[kc2]))")],
+       hints=["conn_keyed_by_ident_old(self, cur)"],
+       modifies=_STOP_MODS + _STOP_GHOST)
+
+
+@R.specfn("conn_keyed_by_ident_old")
+def _conn_keyed_old(ex, st, n, k):
+    """instance, for the visited key, of the table invariant `connections[k].ident == k` in the ENTRY state"""
+    from pyvc.speceval import SpecEnv
+    from .node import _VB
+    es = ex.entry_state
+    return _VB(ex.spec_bool(SpecEnv(es, {"n": ex.unwrap(n), "k": ex.unwrap(k)}),
+                            "implies(k in n.connections, n.connections[k].ident == k)"))
+
+# ---- stopping an application: both consumer threads are told to stop, blocked senders are woken ---------------------------
+R.contract("ThreadingApplication.stop", params={"self": "ThreadingApplication"},
+           ensures=[("both-consumer-threads-told-to-stop",
+                     "self._resp_queue_consumer.stopped and self._recv_queue_consumer.stopped"),
+                    ("base-class-stop-runs", "self.g_stopped")],
+           ghost_modifies=["*Application.g_stopped"],
+           modifies=["self._resp_queue_consumer.stopped", "self._recv_queue_consumer.stopped", "*Event.flag",
+                     "*PeerConnection.state", "*Socket.closed"],
+           props=["C18"],
+           note="the threading application stops its request consumer and its answer consumer before it waits for them "
+                "(join is an environment step) and then runs the base class' stop")
+R.contract("Application.stop#base", params={"self": "Application"}, ghost={"hb": "int"},
+           ensures=[("every-blocked-sender-is-woken",
+                     "implies(hb in self._answer_waiting, self._answer_waiting[hb].event.flag)")],
+           raises=[], modifies=["*Event.flag"], props=["C18"],
+           note="the base class' stop: every caller blocked in send_request is released (it then returns without an answer)")
+R.loop("Application.stop", 0,
+       invariants=[("woken-so-far", "implies(hb in done, self._answer_waiting[hb].event.flag)")],
+       modifies=["*Event.flag"])
